@@ -21,7 +21,7 @@ def select(t, c):
 
 
 def run(tier):
-    return sc.run_family(PID, tier, RULE, select, cap=dict(quick=700, thorough=6000))
+    return sc.run_family(PID, tier, RULE, select, cap=dict(quick=700, thorough=2500))
 
 
 def replay(path):
